@@ -1226,6 +1226,13 @@ func c36RunCase(c *Ctx, cs c36Case, r *Rand, replay bool) (res c36Result) {
 		}
 	}
 
+	// `-p` together with `-ln <lang>` is a start-up error (covered by the tie above: every mode prints
+	// the message and exits 1); the property's statements are about runs that start.
+	if base.p == "1" && base.ln != "-" && base.ln != "auto" {
+		res.tags = append(res.tags, "startup-error(-p with -ln)")
+		return
+	}
+
 	// ---- search leg: the statements, on the binary alone
 	fl := func(mode string) []string { return c36ModeFlags(base, mode).args(long) }
 	// The files the run is about, by the manual: an explicit regular file (or a symlink to one) is
